@@ -106,7 +106,7 @@ func runCase(c *rig.Ctx, cs Case, record bool, st *stats) bool {
 	for i := range planOps {
 		planOps[i].Order = nil
 	}
-	if err := c.Model("C03.run", map[string]interface{}{"ops": planOps}, &plan); err != nil {
+	if err := c.Model("C03.run", map[string]interface{}{"ops": planOps, "policy_scopes": lib.PolicyScopes()}, &plan); err != nil {
 		return fail("diff", "c03.model-error", "model error "+err.Error(), nil, nil)
 	}
 	if len(plan.Steps) != len(cs.Ops) {
@@ -223,7 +223,7 @@ func runCase(c *rig.Ctx, cs Case, record bool, st *stats) bool {
 	}
 	// 3. the model on the same history (with the observed iteration orders), and the judge on the implementation's trace
 	var m modelReply
-	merr := c.Model("C03.run", map[string]interface{}{"ops": ops, "impl": impl}, &m)
+	merr := c.Model("C03.run", map[string]interface{}{"ops": ops, "impl": impl, "policy_scopes": lib.PolicyScopes()}, &m)
 	if merr != nil && judgeFail == nil {
 		return fail("diff", "c03.model-error", "model error "+merr.Error(), impl, nil)
 	}
